@@ -103,6 +103,50 @@ def run(repo, chk):
     cp = [src(n.value) for n in ast.walk(rc) if isinstance(n, ast.Assign) and src(n.targets[0]) == 'codepoint']
     chk.expect(cp == ['int(escape, 16)'], 'C12.R2', 'read_char_escape::codepoint', f'{cp}', READERS)
 
+    # \u{...}: the reader touches the code point only through comparisons with constants and chr(); tabulating the
+    # representatives around every such constant (and around the Unicode limits) therefore covers all code points
+    consts = {0, 0x7F, 0x80, 0xD7FF, 0xD800, 0xDFFF, 0xE000, 0xFFFF, 0x10000, 0x10FFFF, 0x110000, 0x7FFFFFFF, 0xFFFFFFFFFF}
+    for n in ast.walk(rc):
+        if isinstance(n, ast.Constant) and isinstance(n.value, int) and not isinstance(n.value, bool):
+            consts |= {n.value - 1, n.value, n.value + 1}
+    for n in ast.walk(repo.module(READERS)):
+        if isinstance(n, ast.Assign) and isinstance(n.value, ast.Constant) and isinstance(n.value.value, int) and n.value.value > 255:
+            consts |= {n.value.value - 1, n.value.value, n.value.value + 1}
+    LexErr = rd.get('LexerError')
+    rce = rd.get('read_char_escape')
+
+    class _Scan:
+        """stub scanner positioned at a \\u{...} escape"""
+        cursor = None
+
+        def __init__(self, hexdigits):
+            self.h = hexdigits
+            lexmod = it.load(LEXER)
+            self.cursor = lexmod['Cursor'](0, 0)
+
+        def match(self, pat):
+            return self.h if getattr(pat, 'pattern', '').startswith('\\\\u') else None
+
+        def exact(self, s):
+            return False
+
+        def read(self, n):
+            return None
+    bad = []
+    for cp in sorted(c for c in consts if c >= 0):
+        try:
+            r = rce(_Scan(f'{cp:X}'))
+            out = ('value', r)
+        except LexErr:
+            out = ('LexerError', None)
+        except Exception as e:       # noqa
+            out = (type(e).__name__, None)
+        want = ('value', chr(cp)) if cp <= 0x10FFFF else ('LexerError', None)
+        if out != want:
+            bad.append((hex(cp), out[0]))
+    chk.expect(not bad, 'C12.R2', 'read_char_escape::code point range',
+               f'\\u{{...}} must denote chr(n) for every n <= 10FFFF and be a LexerError above: wrong at {bad[:4]}', READERS)
+
     # ---------------- R2 ---------------------------------------------------------------
     esc = rd.get('escape_codes')
     chk.expect(esc == ESCAPES, 'C12.R2', 'escape_codes', f'{esc!r} differs from the documented table', READERS)
@@ -255,4 +299,10 @@ def run(repo, chk):
                'source text is split on \\n only (other Unicode line separators are ordinary characters)', SCANNER)
     t = src(sc_cls['from_file'])
     chk.expect("line.removesuffix('\\n') for line in file" in t and 'splitlines' not in t, 'C12.R6', 'SourceCode.from_file', '', SCANNER)
+    # a character literal's value reaches the instruction operand unchanged (emission side, shared with C13.B0)
+    if chk.__class__.__name__ == 'Check':
+        chk.rule('C12.R7', 'character / string constants are emitted so that the assembler reads back the same bytes (shared with C13.B0)')
+        from . import c13
+        from ..report import Remap
+        c13.run(repo, Remap(chk, {'C13.B0': 'C12.R7'}))
     chk.not_decided = ['that int()/chr()/str.encode compute the documented values (Python semantics trusted)']
